@@ -105,7 +105,7 @@ type c01Trace struct {
 }
 
 func checkC01(c *Ctx) {
-	c.Rep.Rule = "conformant sessions (open, every request kind at both ends and the middle of every line and at two positions outside the text, document and workspace requests, an edit, a completion, a save, a hover, close) are run on fresh real servers over generated workspaces: (a) Hostile.tla's strings over 27 lexer-relevant byte classes (all of length <= 3, a seeded sample of length 4 quick / all thorough), (b) Hostile.tla's annotation blocks in which two aliases and a class refer to each other through every wrapper, used in seven ways, (c) enum blocks and over-long error lists, (d) a seeded sample of LuaGrammar.tla's chunks and single-token mutants, (e) position sweeps over every line:character of small buffers. Every session is recorded as an event trace (send/reply/notify/push/tick/crash/fault) and LivenessTrace.tla replays the traces through Liveness.tla, TLC evaluating Good (alive, no swallowed internal fault, no request overdue) after every event; all other families' replays run under the same crash/hang monitor; distinct = distinct workspaces"
+	c.Rep.Rule = "conformant sessions (open, every request kind at both ends and the middle of every line and at two positions outside the text, document and workspace requests, an edit, a completion, a save, a hover, close) are run on fresh real servers over generated workspaces: (a) Hostile.tla's strings over 27 lexer-relevant byte classes (all of length <= 3, a seeded sample of length 4 quick / all thorough), (b) Hostile.tla's annotation blocks in which two aliases and a class refer to each other through every wrapper, used in seven ways, (c) enum blocks and over-long error lists, (d) a seeded sample of LuaGrammar.tla's chunks and single-token mutants, (e) position sweeps over every line:character of small buffers, (f) ClassGraph.tla's class hierarchies that contain an inheritance cycle, declared in one, two or three files, with a variable of every class (a seeded third quick / all thorough). Every session is recorded as an event trace (send/reply/notify/push/tick/crash/fault) and LivenessTrace.tla replays the traces through Liveness.tla, TLC evaluating Good (alive, no swallowed internal fault, no request overdue) after every event; all other families' replays run under the same crash/hang monitor; distinct = distinct workspaces"
 	c.Rep.Assumptions = []string{
 		"the quantifier over bytes* is met only through these structured generators; there is no coverage-guided byte fuzzing in this family",
 		"a request is overdue after 10 s without an answer (three orders of magnitude above the measured norm); the child is then killed",
@@ -324,6 +324,36 @@ func checkC01(c *Ctx) {
 		id++
 		raw, _ := json.Marshal(map[string]interface{}{"fam": "sweep", "text": text})
 		add(fmt.Sprintf("position sweep over %q", text), raw, c01Session(id, map[string]string{fmt.Sprintf("s%d.lua", si): text}, nil, fmt.Sprintf("s%d.lua", si), text, pos))
+	}
+	// ---- (f) class hierarchies with an inheritance cycle (ClassGraph.tla, Level "cycles"), in every file layout ----
+	{
+		st, err := c.TLC(tlc.Run{Module: "ClassGraph", Workers: 4, Timeout: 30 * time.Minute,
+			Cfg: "CONSTANTS\n  Classes = {\"KA\",\"KB\",\"KC\"}\n  Level = \"cycles\"\nINIT Init\nNEXT Next\nINVARIANTS Emit\nCHECK_DEADLOCK FALSE\n"},
+			func(j json.RawMessage) {
+				jb := cgBuild(0, j)
+				if jb == nil {
+					return
+				}
+				d := jb.Data.(*cgData)
+				h := hash64(string(j), c.Seed)
+				if !c.Thorough() && h%3 != 0 {
+					return
+				}
+				id++
+				text := d.files["main.lua"]
+				var pos [][2]int
+				for li, l := range strings.Split(text, "\n") {
+					if strings.HasPrefix(l, "local q") {
+						pos = append(pos, [2]int{li, len(l) - 1})
+					}
+				}
+				add("cyclic class hierarchy\n-- types1.lua\n"+d.files["types1.lua"]+"-- types2.lua\n"+d.files["types2.lua"]+"-- types3.lua\n"+d.files["types3.lua"]+"-- main.lua\n"+text,
+					append(json.RawMessage{}, j...), c01Session(id, d.files, nil, "main.lua", text, pos))
+			})
+		if err != nil || st.ExitCode != 0 {
+			c.Rep.Fatal(fmt.Sprintf("ClassGraph.tla run failed (exit %d): %v\n%s", st.ExitCode, err, lastLines(st.Out, 12)))
+			return
+		}
 	}
 	c.Rep.Extra["sessions"] = len(groups)
 	// ---- run, recording the event stream of every session ----
